@@ -855,23 +855,25 @@ func (m MemoryFeatureSource) Read(options ReadOptions, emit Emit, ctx context.Co
 	}
 	c := make(chan Feature, cores)
 	ctx, cancel := context.WithCancel(ctx)
+	defer cancel()
 	var wg sync.WaitGroup
 	var cause error
+	var lock sync.Mutex
 	feed := func(goroutine int) {
 		defer wg.Done()
-		for {
-			select {
-			case <-ctx.Done():
+		for f := range c {
+			// Features already queued when emit failed are dropped
+			if ctx.Err() != nil {
 				return
-			case f, ok := <-c:
-				if ok {
-					if err := emit(f, goroutine); err != nil {
-						cause = err
-						cancel()
-					}
-				} else {
-					return
+			}
+			if err := emit(f, goroutine); err != nil {
+				lock.Lock()
+				if cause == nil {
+					cause = err
 				}
+				lock.Unlock()
+				cancel()
+				return
 			}
 		}
 	}
@@ -882,6 +884,9 @@ func (m MemoryFeatureSource) Read(options ReadOptions, emit Emit, ctx context.Co
 	}
 feeding:
 	for _, f := range m {
+		if ctx.Err() != nil {
+			break
+		}
 		select {
 		case c <- f:
 		case <-ctx.Done():
